@@ -339,3 +339,20 @@ def module_consts(module):
         except CannotEval:
             pass
     return out
+
+
+def entry_node_of(cfg, st):
+    """the CFG node control reaches first when statement `st` starts executing"""
+    while True:
+        if isinstance(st, ast.Try):
+            st = st.body[0]
+            continue
+        if isinstance(st, (ast.If, ast.While)):
+            ns = cfg.nodes_for(st.test)
+        elif isinstance(st, (ast.For, ast.With)):
+            ns = cfg.nodes_for(st)
+        else:
+            ns = cfg.nodes_for(st)
+        if not ns:
+            raise AnalysisError(f'no CFG node for statement at line {getattr(st, "lineno", 0)}')
+        return ns[0]
